@@ -778,6 +778,28 @@ pub async fn handle_changes(
                     };
                 }
 
+                #[cfg(feature = "verif")]
+                {
+                    // which sequences of the dropped changeset the cache still marks as seen
+                    let still: Vec<u64> = dropped_change
+                        .seqs()
+                        .map(|seqs| {
+                            (seqs.start().0..=seqs.end().0)
+                                .filter(|s| {
+                                    dropped_change.versions().all(|v| {
+                                        seen.get(&(dropped_change.actor_id, v))
+                                            .is_some_and(|e| e.contains(&CrsqlSeq(*s)))
+                                    })
+                                })
+                                .collect()
+                        })
+                        .unwrap_or_default();
+                    let key_left = dropped_change
+                        .versions()
+                        .any(|v| seen.contains_key(&(dropped_change.actor_id, v)));
+                    verif_dropped["still_seen"] = serde_json::json!(still);
+                    verif_dropped["key_left"] = serde_json::json!(key_left);
+                }
                 buf_cost -= dropped_change.processing_cost();
                 dropped_count += 1;
             }
